@@ -7,6 +7,7 @@ import os
 
 from sa.cfg import cfg_of
 from sa.emit import Alt, Elem, Opt, Rep, walk_elems
+from sa.flow import subterms
 from sa.model import AnalysisError, norm, parent, walk_no_nested
 from sa.xsd import CType, Schema, included, show_re, symbols
 
@@ -356,6 +357,7 @@ def run(report, p):
     if t_root is None:
         raise AnalysisError(f"chain root <{cdoc.tag}> is not a global element of ASCMHLDirectory.xsd")
     # 3.11 #7: the chain-entry builder's non-c4 alternative is dead for files written by this tool
+    author_wiring(report, p, pr)
     dead = prune_dead_chain_alt(p, report, cdoc)
     check_elem(sd, cdoc, t_root, [], [])
     for it, kind, why in cx.dyn_notes:
@@ -441,6 +443,52 @@ def refine_templates(p, report, pr, mdoc, lemma_ignore):
             for c in el.children:
                 if isinstance(c, Elem) and c.tag == "path":
                     c.attrs = [a for a in c.attrs if a.name != "size"]
+
+
+def author_wiring(report, p, pr):
+    """R11.8: the typed author attributes (email must match the XSD's e-mail pattern) are filled from the command option of the same name"""
+    r8 = report.rule(
+        "R11.8",
+        "option-to-attribute wiring of <author>: at every construction of MHLAuthor outside the reader, the value bound to the parameter that initialises field X "
+        "(name / email / phone / role) comes from the command option --author_X; a crossed binding puts e.g. a phone number into the pattern-typed email attribute",
+        2,
+    )
+    aq = "ascmhl.hashlist.MHLAuthor"
+    init = p.find_method(aq, "__init__")
+    if init is None:
+        raise AnalysisError("MHLAuthor.__init__ not found")
+    fi = p.funcs[init]
+    field_of_param = {}
+    for st in walk_no_nested(fi.node):
+        if isinstance(st, ast.Assign) and len(st.targets) == 1 and isinstance(st.targets[0], ast.Attribute) and norm(st.targets[0].value) == fi.params[0] and isinstance(st.value, ast.Name) and st.value.id in fi.params:
+            field_of_param[st.value.id] = st.targets[0].attr
+    optnames = set()
+    for c in commands(p).values():
+        for pn in p.click_options(c):
+            if pn.startswith("author_"):
+                optnames.add(pn)
+    for fq, f in sorted(p.funcs.items()):
+        if f.module.name.endswith("_xml_parser"):
+            continue
+        for call, tg in p.calls[fq]:
+            if init not in tg:
+                continue
+            r8.instance(f, call, norm(call)[:90])
+            b = p.bind_args(fi, call)
+            for pn, arg in b.items():
+                if arg is None or pn not in field_of_param or not any(arg is x for x in list(call.args) + [k.value for k in call.keywords]):
+                    continue
+                fld = field_of_param[pn]
+                srcs = set()
+                for o in pr.origins(arg, f):
+                    full = pr.expand_params(o, depth=4)
+                    for t in [o] + list(subterms(full)):
+                        if t[0] == "param" and t[2] in optnames:
+                            srcs.add(t[2])
+                if not srcs:
+                    continue  # constants etc.
+                want = "author_" + fld
+                r8.check(srcs == {want}, f, call, f"MHLAuthor.{fld} (written as the {fld} {'text' if fld == 'name' else 'attribute'} of <author>) is filled from {sorted(srcs)} instead of --{want}", construct=f"author {fld} <- {sorted(srcs)}")
 
 
 def _strip_length_preserving(e):
